@@ -73,7 +73,11 @@ func cells(v reflect.Value, path string, out *[]mutation, seen map[uintptr]bool)
 			saved := *b
 			*out = append(*out, mutation{path + " header overwritten", func() { *b = *big.NewInt(424242) }, func() { *b = saved }})
 			if bits := b.Bits(); len(bits) > 0 {
-				*out = append(*out, mutation{path + " word[0]^=1", func() { bits[0] ^= 1 }, func() { bits[0] ^= 1 }})
+				x := big.Word(1)
+				if len(bits) == 1 && bits[0] == 1 {
+					x = 2 // keep the top word non-zero: big.Int requires normalised word arrays
+				}
+				*out = append(*out, mutation{path + " word[0] flipped in place", func() { bits[0] ^= x }, func() { bits[0] ^= x }})
 			}
 			return
 		}
